@@ -434,6 +434,9 @@ func execC04(c *hlib.Ctx, tok []string) string {
 }
 
 func execC04Body(c *hlib.Ctx, tok []string) string {
+	if len(tok) > 0 && tok[0] == "rp.tsdb" {
+		return execC04TSDB(c, tok) // real TSDB stores, see c04tsdb.go
+	}
 	if len(tok) != 7 || tok[0] != "rp.select" {
 		return "bad-op"
 	}
@@ -610,6 +613,7 @@ func genC04(c *hlib.Ctx) {
 	for i := 0; i < n; i++ {
 		genC04Case(c)
 	}
+	genC04TSDB(c)
 }
 
 // cutChunks cuts a sample sequence into consecutive chunks at random points; with overlap > 0 some
